@@ -129,6 +129,16 @@ def network_checks(rep, rng):
         ("duplicate-species", lambda: RDNetwork(species=[Species("A"), Species("A")], reactions=[])),
         ("duplicate-reaction-label", lambda: RDNetwork(species=sp, reactions=[Reaction("A -> B", label="r"), Reaction("B -> A", label="r")])),
     ]
+    from strengths import rdnetwork_from_dict
+    spd = lambda labels: [{"label": l} for l in labels]
+    for order in (["A", "B", "A"], ["A", "A"], ["B", "A", "C", "B"]):
+        cases.append(("duplicate-species", lambda order=order: RDNetwork(species=[Species(l) for l in order], reactions=[])))
+        cases.append(("duplicate-species(dict)", lambda order=order: rdnetwork_from_dict({"species": spd(order), "reactions": []})))
+    for labels in (["r", "r"], ["r", None, "r"], ["p", "q", "p"], ["q", "p", "p"]):
+        mk = lambda labels=labels: [Reaction("A -> B", **({"label": l} if l else {})) for l in labels]
+        cases.append(("duplicate-reaction-label", lambda mk=mk: RDNetwork(species=sp, reactions=mk())))
+        cases.append(("duplicate-reaction-label(dict)", lambda labels=labels: rdnetwork_from_dict(
+            {"species": spd(["A", "B"]), "reactions": [dict({"eq": "A -> B"}, **({"label": l} if l else {})) for l in labels]})))
     for name, fn in cases:
         rep.case(["network", name])
         try:
